@@ -307,6 +307,21 @@ def fam_control(pool):
                                 [Assign('acc', Bin('+', Bin('>>', Var('acc'), Lit(U64, 1)), Var('z'))),
                                  Assign('i', Bin('+', Var('i'), Lit(U64, 1)))], 3)],
       Var('acc'), 'trip count x % 4 (data dependent, <= 3)')
+    # a condition tested twice with an empty hook in the first `if` (the first diamond collapses to `cbr c, X, X`)
+    noops = [Fn(f'noop_hook{i}', [('v', U64)], UNIT, Block([], None)) for i in range(3)]
+    K('twice_tested_flag', [Let('c', Bin('>', Var('x'), Var('y'))), Let('r', Bin('+', Var('z'), Lit(U64, 1)), mut=True),
+                            IfS(Var('c'), [ExprS(Call('noop_hook0', [Var('r')]))]),
+                            IfS(Var('c'), [Assign('r', Bin('*', Var('r'), Lit(U64, 2)))])],
+      Var('r'), 'if c { noop(r) } if c { r *= 2 }', extra=[noops[0]])
+    K('twice_tested_revert', [Let('c', Bin('==', Bin('&', Var('x'), Lit(U64, 1)), Lit(U64, 1))),
+                              IfS(Var('c'), [ExprS(Call('noop_hook1', [Var('y')]))]),
+                              IfS(Var('c'), [Revert(9)])],
+      Bin('^', Var('y'), Var('z')), 'if c { noop(y) } if c { revert }', extra=[noops[1]])
+    K('twice_tested_else', [Let('c', Bin('<', Var('x'), Lit(U64, 100))), Let('r', Var('y'), mut=True),
+                            IfS(Var('c'), [ExprS(Call('noop_hook2', [Var('x')]))], [ExprS(Call('noop_hook2', [Var('y')]))]),
+                            IfS(Var('c'), [Assign('r', Bin('|', Var('r'), Lit(U64, 1)))], [Assign('r', Bin('&', Var('r'), Lit(U64, 0xff)))]),
+                            IfS(Un('!', Var('c')), [Assign('r', Bin('^', Var('r'), Var('z')))])],
+      Var('r'), 'both arms empty hooks, then the flag is tested again twice', extra=[noops[2]])
     # u8 accumulator overflow inside loop
     K('loop_u8', [Let('acc', Var('x'), mut=True), Let('i', Lit(U8, 0), mut=True),
                   While(Bin('<', Var('i'), Lit(U8, 3)),
@@ -353,6 +368,29 @@ def fam_calls(pool):
                                                           Bin('|', Var('y'), Var('z')), Bin('&', Var('x'), Var('z')),
                                                           Un('!', Var('x')), Var('z')])))],
       ('a64', 'b64', 'c64'), '8 arguments (stack-passed beyond 6)')
+    # argument forwarding between out-of-line functions, in every order (register shuffles at call sites)
+    import itertools
+    for n in (2, 3):
+        names = ['x', 'y', 'z'][:n]
+        body = Var('p0')
+        for i in range(1, n):
+            body = Bin('^', Bin('-', Bin('|', body, Lit(U64, 1 << (60 + i))), Var(f'p{i}')), Bin('<<', Var(f'p{i}'), Lit(U64, 7 * i)))
+        for pi, perm in enumerate(itertools.permutations(range(n))):
+            callee = Fn(f'fwd{n}_{pi}_callee', [(f'p{i}', U64) for i in range(n)], U64, Block([], body), attrs=['inline(never)'])
+            mid = Fn(f'fwd{n}_{pi}_mid', [(nm, U64) for nm in names], U64,
+                     Block([], Call(f'fwd{n}_{pi}_callee', [Var(names[j]) for j in perm])), attrs=['inline(never)'])
+            top = Fn(f'fwd{n}_{pi}', [(nm, U64) for nm in names], U64, Block([], Call(f'fwd{n}_{pi}_mid', [Var(nm) for nm in names])))
+            K(f'fwd{n}_{pi}', [callee, mid, top], ['a64', 'b64', 'c64'][:n], f'out-of-line fn forwards its parameters to an out-of-line callee in order {perm}')
+    dupfwd_callee = Fn('dupfwd_callee', [('p', U64), ('q', U64), ('r', U64)], U64,
+                       Block([], Bin('^', Bin('-', Bin('|', Var('p'), Lit(U64, 1 << 63)), Var('q')), Bin('<<', Var('r'), Lit(U64, 9)))), attrs=['inline(never)'])
+    dupfwd_mid = Fn('dupfwd_mid', [('x', U64), ('y', U64)], U64,
+                    Block([], Call('dupfwd_callee', [Var('y'), Var('y'), Var('x')])), attrs=['inline(never)'])
+    K('dupfwd', [dupfwd_callee, dupfwd_mid, Fn('dupfwd', [('x', U64), ('y', U64)], U64, Block([], Call('dupfwd_mid', [Var('x'), Var('y')])))],
+      ('a64', 'b64'), 'parameter duplicated and rotated when forwarded')
+    expfwd_mid = Fn('expfwd_mid', [('x', U64), ('y', U64)], U64,
+                    Block([], Call('dupfwd_callee', [Bin('&', Var('y'), Lit(U64, 0xffff)), Var('x'), Var('y')])), attrs=['inline(never)'])
+    K('expfwd', [expfwd_mid, Fn('expfwd', [('x', U64), ('y', U64)], U64, Block([], Call('expfwd_mid', [Var('x'), Var('y')])))],
+      ('a64', 'b64'), 'computed first argument, then rotated parameters')
     chain3 = Fn('ch3', [('x', U64)], U64, Block([], Bin('/', Lit(U64, 1000), Var('x'))), attrs=['inline(never)'])
     chain2 = Fn('ch2', [('x', U64), ('y', U64)], U64, Block([Let('t', Call('ch3', [Var('y')]))], Bin('+', Var('t'), Var('x'))), attrs=['inline(never)'])
     K('call_chain', [chain3, chain2, Fn('call_chain', [('x', U64), ('y', U64)], U64,
